@@ -1,6 +1,6 @@
 (* Property C05 -- a (re)joining node resynchronises to exactly the primary's data *)
 (* Statements only: each theorem restates the proved lemma's statement and is closed by [exact]. *)
-From NunDB Require Import Model.Base Model.Pending Model.Parse Model.Node Model.Oplog Model.Cluster Proofs.PendingProofs Proofs.DbProofs Proofs.ClusterProofs Proofs.SyncProofs Proofs.OplogProofs Proofs.IncrSyncProofs.
+From NunDB Require Import Model.Base Model.Pending Model.Parse Model.Node Model.Oplog Model.Cluster Proofs.PendingProofs Proofs.DbProofs Proofs.ClusterProofs Proofs.SyncProofs Proofs.OplogProofs Proofs.IncrSyncProofs Proofs.ConvergeProofs Proofs.FullSyncProofs.
 Local Open Scope Z_scope.
 
 (* the LIVE replication line (with its version field) round-trips byte for byte, values with spaces, numeric-first and empty values included *)
@@ -37,7 +37,8 @@ Print Assumptions C05_replay_converges.
 (* REFUTED (known finding): the catch-up line 'replicate <db> <key> <value>' has no version field and does not round-trip *)
 Theorem C05_sync_line_roundtrip_refuted :
   exists db key value : str,
-           forall ver : Z, parse_request (sync_line db key value) <> POk (RqReplicateSet db key value ver).
+           forall ver : Z,
+           parse_request (SyncProofs.sync_line db key value) <> POk (RqReplicateSet db key value ver).
 Proof. exact sync_line_roundtrip_refuted. Qed.
 Print Assumptions C05_sync_line_roundtrip_refuted.
 
@@ -198,3 +199,132 @@ Theorem C05_stale_line_refuted :
          spec_last (cn_log ex3) 108 (1%N, 0%N) = None.
 Proof. exact only_touched_refuted. Qed.
 Print Assumptions C05_stale_line_refuted.
+
+(* UNBOUNDED: the full synchronisation has a line for every entry of every database except the token and the connection counter *)
+Theorem C05_full_sync_covers :
+  forall (n : node) (dbn : str) (d : db) (k : str) (v : value),
+         In (dbn, d) (n_dbs n) ->
+         dbn <> "$admin" ->
+         In (k, v) (d_map d) ->
+         k <> "$$token" ->
+         k <> "$connections" -> In ("replicate " +++ dbn +++ " " +++ k +++ " " +++ v_val v) (full_sync_lines n).
+Proof. exact full_sync_covers. Qed.
+Print Assumptions C05_full_sync_covers.
+
+(* in particular users, permission lists and every other $$ key are sent *)
+Theorem C05_full_sync_covers_secure_keys :
+  forall (n : node) (dbn : str) (d : db) (k : str) (v : value),
+         In (dbn, d) (n_dbs n) ->
+         dbn <> "$admin" ->
+         In (k, v) (d_map d) ->
+         starts_with k "$$" = true ->
+         k <> "$$token" -> In ("replicate " +++ dbn +++ " " +++ k +++ " " +++ v_val v) (full_sync_lines n).
+Proof. exact full_sync_covers_secure_keys. Qed.
+Print Assumptions C05_full_sync_covers_secure_keys.
+
+(* per database: the create-db line, the entries in map order, the snapshot request -- contiguous *)
+Theorem C05_full_sync_db_block :
+  forall (n : node) (dbn : str) (d : db),
+         In (dbn, d) (n_dbs n) ->
+         dbn <> "$admin" ->
+         exists (pre : list str) (post : list string),
+           full_sync_lines n =
+           pre ++
+           [create_db_line n dbn] ++ entry_lines dbn (d_map d) ++ ["replicate-snapshot " +++ dbn] ++ post.
+Proof. exact full_sync_db_block. Qed.
+Print Assumptions C05_full_sync_db_block.
+
+(* exactness: nothing else is sent *)
+Theorem C05_full_sync_only :
+  forall (n : node) (l : str),
+         In l (full_sync_lines n) ->
+         exists (dbn : str) (d : db),
+           In (dbn, d) (n_dbs n) /\
+           dbn <> "$admin" /\
+           (l = create_db_line n dbn \/
+            (exists (k : str) (v : value),
+               In (k, v) (d_map d) /\
+               k <> "$$token" /\
+               k <> "$connections" /\ l = "replicate " +++ dbn +++ " " +++ k +++ " " +++ v_val v) \/
+            l = "replicate-snapshot " +++ dbn).
+Proof. exact full_sync_only. Qed.
+Print Assumptions C05_full_sync_only.
+
+(* the answer does not depend on the administrative database *)
+Theorem C05_full_sync_no_admin :
+  forall n n' : node,
+         non_admin (n_dbs n) = non_admin (n_dbs n') -> full_sync_lines n = full_sync_lines n'.
+Proof. exact full_sync_no_admin. Qed.
+Print Assumptions C05_full_sync_no_admin.
+
+(* the create-db line carries the database's token *)
+Theorem C05_full_sync_token_line :
+  forall (n : node) (dbn : str) (d : db) (v : value),
+         get_db n dbn = Some d ->
+         get_value d "$$token" = Some v -> create_db_line n dbn = "create-db " +++ dbn +++ " " +++ v_val v.
+Proof. exact full_sync_token_line. Qed.
+Print Assumptions C05_full_sync_token_line.
+
+(* a joiner that processes a database's block ends with the database, the primary's token and EVERY key of the block present (whatever bytes the values hold) *)
+Theorem C05_full_sync_joiner_has_keys :
+  forall (p j : node) (cs : nat) (dbn : str) (d : db),
+         get_db p dbn = Some d ->
+         dbn <> "$admin" ->
+         simple_tok dbn ->
+         simple_tok (fst (get_key_value_new d "$$token")) ->
+         (forall (k : str) (v : value),
+          In (k, v) (d_map d) -> k <> "$$token" -> k <> "$connections" -> no_sp k /\ no_nl k) ->
+         s_auth (get_sess j cs) = true ->
+         is_primary j || sess_is_primary (get_sess j cs) = true ->
+         has_db j dbn = false ->
+         let j' := run j cs (db_block p dbn d) in
+         has_db j' dbn = true /\
+         s_auth (get_sess j' cs) = true /\
+         (exists dj : db,
+            get_db j' dbn = Some dj /\
+            fst (get_key_value_new dj "$$token") = fst (get_key_value_new d "$$token") /\
+            (forall (k : str) (v : value),
+             In (k, v) (d_map d) -> k <> "$$token" -> k <> "$connections" -> get_value dj k <> None)).
+Proof. exact full_sync_joiner_has_keys. Qed.
+Print Assumptions C05_full_sync_joiner_has_keys.
+
+(* kept visible: the hypothesis 'the link is the primary's' is needed (create-db is refused otherwise) *)
+Theorem C05_full_sync_joiner_needs_primary_link :
+  let
+         '(n0, c) := connect (init_node "u" "p" "127.0.0.1:3017" 2 Secondary 500) in
+          let j := run n0 c ["auth u p"] in
+          s_auth (get_sess j c) = true /\ has_db (run j c (full_sync_lines example_primary)) "d1" = false.
+Proof. exact full_sync_joiner_needs_primary_link. Qed.
+Print Assumptions C05_full_sync_joiner_needs_primary_link.
+
+(* kept visible (the recorded finding made precise): one-word values arrive EMPTY, because the line has no version field and the word is read as the version *)
+Theorem C05_full_sync_joiner_one_word_values_lost :
+  forall (p j : node) (cs : nat) (dbn : str) (d : db),
+         get_db p dbn = Some d ->
+         dbn <> "$admin" ->
+         simple_tok dbn ->
+         simple_tok (fst (get_key_value_new d "$$token")) ->
+         (forall (k : str) (v : value),
+          In (k, v) (d_map d) -> k <> "$$token" -> k <> "$connections" -> simple_tok k /\ simple_tok (v_val v)) ->
+         s_auth (get_sess j cs) = true ->
+         is_primary j || sess_is_primary (get_sess j cs) = true ->
+         has_db j dbn = false ->
+         exists dj : db,
+           get_db (run j cs (db_block p dbn d)) dbn = Some dj /\
+           (forall (k : str) (v : value),
+            In (k, v) (d_map d) ->
+            k <> "$$token" ->
+            k <> "$connections" -> exists v' : value, get_value dj k = Some v' /\ v_val v' = "").
+Proof. exact full_sync_joiner_one_word_values_lost. Qed.
+Print Assumptions C05_full_sync_joiner_one_word_values_lost.
+
+(* non-vacuity: d1 with a key, a user and a permission list *)
+Theorem C05_full_sync_example :
+  map (fun kv : str * db => (fst kv, map fst (d_map (snd kv)))) (n_dbs example_primary) =
+         [("$admin", ["$$token"; "$admin"; "d1"]);
+          ("d1", ["$$token"; "$connections"; "a"; "$$user_bob"; "$$permission_$bob"])] /\
+         full_sync_lines example_primary =
+         ["create-db d1 tok1"; "replicate d1 a 1"; "replicate d1 $$user_bob pw";
+          "replicate d1 $$permission_$bob rw a"; "replicate-snapshot d1"].
+Proof. exact full_sync_example. Qed.
+Print Assumptions C05_full_sync_example.
